@@ -105,6 +105,66 @@ func ruleRevOrder(c *Ctx) []Obligation {
 	default:
 		obs = append(obs, bad(R, con, c.InstrPos(first), "the bare name is consulted before the exact revision: an import with revision-date would bind to the latest revision"))
 	}
+	// per kind of referring statement: the key carries that statement's own revision-date
+	if first != nil {
+		for _, tn := range []string{"Include", "Import"} {
+			named := c.Named("yang", tn)
+			con := fmt.Sprintf("FindModule: the exact-revision key of an *%s is built from its own revision-date", tn)
+			if named == nil {
+				obs = append(obs, undecided(R, con, "-", "type not found"))
+				continue
+			}
+			built := false
+			backSliceAll(first.Index, func(x ssa.Value) {
+				bo, isB := x.(*ssa.BinOp)
+				if !isB || bo.Op != token.ADD {
+					return
+				}
+				if derivesFrom(bo.Y, func(y ssa.Value) bool {
+					owner, f, _ := fieldOf(y)
+					return f != nil && recordedFieldName(f) == "RevisionDate" && owner == named
+				}) {
+					built = true
+				}
+			})
+			if built {
+				obs = append(obs, ok(R, con, c.InstrPos(first), "name + \"@\" + RevisionDate.Name reaches the first lookup"))
+			} else {
+				obs = append(obs, bad(R, con, c.InstrPos(first), "no key built from the revision-date of an *"+tn+" reaches the exact-revision lookup: the statement's revision-date is ignored and it binds to whatever revision the bare name denotes"))
+			}
+		}
+	}
+	// after the disk read the exact revision is preferred again
+	if len(reads) > 0 {
+		con := "FindModule: after reading from disk the exact revision is returned when it is there, the bare name only otherwise"
+		var post *ssa.Lookup
+		for _, l := range looks {
+			if isRevKey(l.Index) && !dominates(l, reads[0]) && first != nil && l != first {
+				post = l
+			}
+		}
+		if post == nil {
+			obs = append(obs, bad(R, con, c.Pos(fm.Pos()), "no lookup of the exact-revision key after the disk read: a module just read for an import with revision-date is looked up by bare name, which may denote a newer revision loaded earlier"))
+		} else {
+			okPost := false
+			for _, blk := range fm.Blocks {
+				rt, isR := blk.Instrs[len(blk.Instrs)-1].(*ssa.Return)
+				if !isR || len(rt.Results) != 1 || rt.Results[0] != ssa.Value(post) {
+					continue
+				}
+				for _, g := range guardsAt(blk) {
+					if x, isEq, okn := nilTest(g.Cond); okn && x == ssa.Value(post) && isEq != g.Branch {
+						okPost = true
+					}
+				}
+			}
+			if okPost {
+				obs = append(obs, ok(R, con, c.InstrPos(post), "if n := m[name@rev]; n != nil { return n }"))
+			} else {
+				obs = append(obs, bad(R, con, c.InstrPos(post), "the exact-revision entry found after the read is not returned under `!= nil`: the import binds to the bare name's revision, or to nothing"))
+			}
+		}
+	}
 	// add
 	add := c.MustFn("yang.(*Modules).add")
 	var full, bare *ssa.MapUpdate
